@@ -7,7 +7,7 @@ import c12
 
 CONFIGS_QUICK = ["F_all"]
 CONFIGS_THOROUGH = ["F_all", "F_def", "F_noenc"]
-TECHNIQUE = 'static analysis: decision-table extraction by symbolic path walking over rustc MIR (dispatch, scanner automata), constant relations between detection and stripping, value sets of byte predicates'
+TECHNIQUE = 'static analysis: decision-table extraction by symbolic path walking over rustc MIR (dispatch, scanner automata), constant relations between detection and stripping, value sets of byte predicates, linear-form index agreement of the comment-check scan window'
 EXPLANATION = (
     "Markup dispatch table after '<' extracted from both instantiations of read_until_close! (byte peeked -> source "
     "helper and scanner start state -> emitter on Ok -> error position on Err, end of input -> UnclosedTag) and compared "
